@@ -60,6 +60,13 @@ impl<I: Interner> AggregateOps<I> for SlgContextOps<'_, I> {
         if next_answer.is_no_more_solutions() && !ambiguous {
             return Some(Solution::Unique(subst));
         }
+        if let AnswerResult::Floundered = next_answer {
+            // The table floundered while we were looking for a second
+            // answer. That discards its strands and answers, so nothing is
+            // known about further solutions: `subst` must not be handed out
+            // as definite guidance.
+            return Some(Solution::Ambig(Guidance::Unknown));
+        }
 
         // Otherwise, we either have >1 answer, or else we have
         // ambiguity.  Either way, we are only going to be giving back
